@@ -137,10 +137,27 @@ def to_term(cfg, ops, ob):
     t_ack = None          # when CONNECT was acknowledged
     authed = False
     t_closed = None
+    hb_ann = None         # the heartbeat interval the server announced
+    t_quiet = None        # since when the authenticated connection has neither sent anything nor been pinged
     for op, o in zip(ops, ob["ops"]):
         fr = o["conns"].get("1", {"frames": [], "closed": False})
         if fr.get("closed") and t_closed is None:
             t_closed = o["t_end"]
+        # keep-alive, judged on the implementation alone: an authenticated connection that has been silent for two
+        # intervals (plus slack for the observation grid) has been pinged
+        for f in fr["frames"]:
+            if "undecodable" not in f and sl.frame_name(f) == "CONNECT_ACK":
+                hb_ann = sl.frame_get(f, "heartbeat_interval")
+            if "undecodable" not in f and sl.frame_name(f) == "PING":
+                t_quiet = None
+        if authed and t_closed is None and op["tin"] != "PRE":
+            if op["t"] in ("send", "pong") and op.get("k") == 1:
+                t_quiet = o["t_end"]
+            elif t_quiet is None and not any("undecodable" not in f and sl.frame_name(f) == "PING" for f in fr["frames"]):
+                pass
+            if t_quiet is not None and hb_ann and o["t_start"] > t_quiet + 2 * hb_ann + 20:
+                mon.append(f"authenticated connection silent since {t_quiet} ms has not been pinged by {o['t_start']} ms (heartbeat {hb_ann} ms)")
+                t_quiet = None
         for f in fr["frames"]:
             if "undecodable" in f:
                 continue
@@ -149,6 +166,7 @@ def to_term(cfg, ops, ob):
                 t_ack = o["t_start"]
             if n0 == "IDENTIFY_ACK" or (n0 == "AUTH_ACK" and sl.frame_get(f, "succeeded") is True):
                 authed = True
+                t_quiet = o["t_end"]
         # the phase deadlines, judged on the implementation alone: whoever has not authenticated authenticate_timeout after
         # its CONNECT was acknowledged must have been closed by then (5 ms of slack for the observation grid)
         if t_ack is not None and not authed and t_closed is None and o["t_start"] > t_ack + cfg["auth_timeout_ms"] + 5 and op["tin"] != "PRE":
